@@ -154,7 +154,8 @@ def run(rep, tier, seed):
         for i in (3, 400, 1500):
             if i < len(ilist):
                 rep.sample({"input": ilist[i]["src"][:200], "cfg": ilist[i]["cfg"], "programs": ilist[i]["last"] - ilist[i]["first"] + 1})
-        rep.set("programs", {"inputs": s["inputs"], "accepted_input_x_config": s["accepted"], "listings_incl_nested_bodies": n0})
+        rep.set("programs", n0)
+        rep.set("program_counts", {"inputs": s["inputs"], "accepted_input_x_config": s["accepted"], "listings_incl_nested_bodies": n0})
         rep.set("traces_validated_against_impl", tj["frames"])
         rep.set("evaluations", n0)
         rep.set("distinct_nontrivial", len({json.dumps(p_["code"]) for p_ in plist[:n0] if any(c["op"] in ("jmp", "jne", "je.dup", "block.push", "fstr.block.push", "invoke") for c in p_["code"])}))
